@@ -1153,10 +1153,12 @@ namespace Dune
       nonsingularLanes(true);
 
     AutonomousValue<MAT>::luDecomposition(A, ElimDet(det), nonsingularLanes, false, doPivoting);
-    det = Simd::cond(nonsingularLanes, det, field_type(0));
 
     for (size_type i = 0; i < rows(); ++i)
       det *= A[i][i];
+    // select only after the product: in a lane found singular while other
+    // lanes continued, the remaining diagonal entries are NaN or infinite
+    det = Simd::cond(nonsingularLanes, det, field_type(0));
     return det;
   }
 
